@@ -128,7 +128,7 @@ func checkC10(c *km.Ctx) {
 			parsed := pc != nil && idx == 0 && km.CalleeFull(pc.Common()) == "golang.org/x/crypto/ssh.ParseAuthorizedKey"
 			if parsed {
 				cv, ok := km.Unwrap(pc.Common().Args[0]).(*ssa.Convert)
-				parsed = ok && km.Unwrap(cv.X) == ssa.Value(fn.Params[0])
+				parsed = ok && km.Unwrap(cv.X) == ssa.Value(km.ParamAt(fn, 0))
 			}
 			strong := false
 			for _, ci := range km.CallsIn(fn) {
